@@ -276,6 +276,14 @@ class Zone:
                         self._ax_done.add(key2)
                         self.add_cmp("Lt", a, q)
                         added = True
+            if a[0] in ("max", "min"):
+                # max(x, y) == y and min(x, y) == x once x <= y is derivable
+                for (x, y) in ((a[1], a[2]), (a[2], a[1])):
+                    key = ("mmeq", a, x)
+                    if key not in self._ax_done and le(x, y):
+                        self._ax_done.add(key)
+                        self.add_cmp("Eq", a, y if a[0] == "max" else x)
+                        added = True
             if a[0] == "max":
                 # max(x,y) <= z when both are
                 for z in list(self.atoms):
